@@ -7,6 +7,7 @@ import (
 	"go/ast"
 	"go/token"
 	"go/types"
+	"strings"
 )
 
 // ---------- maps ----------
@@ -23,7 +24,7 @@ func (fx *Fx) mapCell(st *State, mv Val, m *types.Map) (cellTerm, cell string) {
 	cell, _, _ = fx.mapSort(m)
 	h := fx.heapTerm(st, "map_"+cell, cell)
 	c := app("select", h, mv.X)
-	if fx.inQuant == 0 {
+	if fx.inQuant == 0 && !strings.Contains(c, "(ite ") {
 		// facts true of every Go map: size counts the domain
 		st.assume(app("<=", "0", app("size_"+cell, c)))
 		_, ks, _ := fx.mapSort(m)
@@ -73,6 +74,11 @@ func (fx *Fx) mapDelete(st *State, mv Val, m *types.Map, k Val) {
 	dom, val, size := app("dom_"+cell, c), app("val_"+cell, c), app("size_"+cell, c)
 	nsize := ite(app("select", dom, k.X), app("-", size, "1"), size)
 	nc := app("mk_"+cell, app("store", dom, k.X, "false"), val, nsize)
+	if fx.inQuant == 0 {
+		// cardinality: while another key is present, the size after the deletion is still positive
+		_, ks, _ := fx.mapSort(m)
+		st.assume(fmt.Sprintf("(forall ((k %s)) (! (=> (and (not (= k %s)) (select %s k)) (> %s 0)) :pattern ((select %s k))))", ks, k.X, dom, nsize, dom))
+	}
 	// deleting from a nil map is a no-op
 	h := fx.heapTerm(st, "map_"+cell, cell)
 	st.heap["map_"+cell] = fx.share(ite(app("=", mv.X, "nil"), h, app("store", h, mv.X, fx.share(nc, cell))), "(Array Ref "+cell+")")
@@ -101,6 +107,7 @@ func (fx *Fx) execRangeMap(st *State, x *ast.RangeStmt, m *types.Map, label stri
 	c0, _ := fx.mapCell(st, mv, m)
 	dom0 := fx.share(app("dom_"+cell, c0), vsort)
 	st.ghost[vname] = Val{S: vsort, X: fmt.Sprintf("((as const %s) false)", vsort)}
+	st.ghost[fmt.Sprintf("callatkey%d", ord)] = Val{S: fmt.Sprintf("(Array %s Int)", ks), X: fx.d.freshConst(fmt.Sprintf("callatkey%d", ord), fmt.Sprintf("(Array %s Int)", ks))}
 	st.ghost[fmt.Sprintf("dom0_%d", ord)] = Val{S: vsort, X: dom0}
 	fx.checkInvariants(st, ls, ord, "inv-init")
 	ws := fx.collectWrites([]ast.Node{x.Body}, st)
@@ -111,7 +118,10 @@ func (fx *Fx) execRangeMap(st *State, x *ast.RangeStmt, m *types.Map, label stri
 			}
 		}
 	}
+	gname := fmt.Sprintf("callatkey%d", ord)
+	gsort := fmt.Sprintf("(Array %s Int)", ks)
 	fx.havoc(st, ws)
+	st.ghost[gname] = Val{S: gsort, X: fx.d.freshConst(gname, gsort)}
 	visited := fx.d.freshConst(vname, vsort)
 	st.ghost[vname] = Val{S: vsort, X: visited}
 	fx.assumeInvariants(st, ls)
@@ -142,7 +152,13 @@ func (fx *Fx) execRangeMap(st *State, x *ast.RangeStmt, m *types.Map, label stri
 			fx.assignTo(body, p, fx.mapGet(body, mv, m, key))
 		}
 	}
-	for _, o := range fx.exec(body, x.Body) {
+	savedKey, savedSort, savedOrd := body.rangeKey, body.rangeKeySort, body.rangeOrd
+	body.rangeKey, body.rangeKeySort, body.rangeOrd = key.X, ks, ord
+	bodyOuts := fx.exec(body, x.Body)
+	for _, o := range bodyOuts {
+		o.st.rangeKey, o.st.rangeKeySort, o.st.rangeOrd = savedKey, savedSort, savedOrd
+	}
+	for _, o := range bodyOuts {
 		switch {
 		case o.kind == kNormal || (o.kind == kContinue && (o.label == "" || o.label == label)):
 			fx.checkInvariants(o.st, ls, ord, "inv-step")
@@ -155,15 +171,119 @@ func (fx *Fx) execRangeMap(st *State, x *ast.RangeStmt, m *types.Map, label stri
 	return outs
 }
 
-func (fx *Fx) newChan(st *State, t types.Type, capT string) Val { panic(unsupported("make(chan)")) }
-func (fx *Fx) chanClose(st *State, c Val, what string)         { panic(unsupported("close")) }
+// ---------- channels (ghost state {closed, cap, buffered}), select, go ----------
+
+const chanSort = "GChan"
+
+func (fx *Fx) chanCell(st *State, c string) string {
+	fx.d.ensureSort(chanSort, "(declare-datatypes ((GChan 0)) (((mk_GChan (ch_closed Bool) (ch_cap Int) (ch_buffered Int)))))")
+	h := fx.heapTerm(st, "ghost_chan", chanSort)
+	return app("select", h, c)
+}
+
+func (fx *Fx) chanStore(st *State, c, cell string) {
+	h := fx.heapTerm(st, "ghost_chan", chanSort)
+	st.heap["ghost_chan"] = fx.share(app("store", h, c, cell), "(Array Ref "+chanSort+")")
+}
+
+func (fx *Fx) newChan(st *State, t types.Type, capT string) Val {
+	r := fx.alloc(st, "chan")
+	fx.chanCell(st, r)
+	fx.chanStore(st, r, app("mk_GChan", "false", capT, "0"))
+	return Val{T: t, S: SRef, X: r}
+}
+
+func (fx *Fx) chanClose(st *State, c Val, what string) {
+	cell := fx.chanCell(st, c.X)
+	g := and(not(app("=", c.X, "nil")), not(app("ch_closed", cell)))
+	fx.oblige(st, "chan", "close("+what+")", g, "close of a nil or already closed channel panics")
+	st.assume(g)
+	fx.chanStore(st, c.X, app("mk_GChan", "true", app("ch_cap", cell), app("ch_buffered", cell)))
+	fx.assumed["Go channel semantics: a channel closed once stays closed; an unbuffered send completes together with its receive"] = true
+}
+
+func (fx *Fx) execSend(st *State, x *ast.SendStmt) []Outcome {
+	c := fx.eval(st, x.Chan, false)
+	v := fx.eval(st, x.Value, false)
+	fx.chanSend(st, c, v, exprText(x.Chan))
+	return normal(st)
+}
+
+func (fx *Fx) chanSend(st *State, c, v Val, what string) {
+	cell := fx.chanCell(st, c.X)
+	g := not(app("ch_closed", cell))
+	fx.oblige(st, "chan", "send("+what+")", g, "send on a closed channel panics")
+	st.assume(g)
+	// message invariant of the channel, if one is declared: proved here, assumed at the receive
+	fx.checkChanInvariant(st, c, v, what)
+	buffered := app("ch_buffered", cell)
+	fx.chanStore(st, c.X, app("mk_GChan", "false", app("ch_cap", cell), ite(app("<", buffered, app("ch_cap", cell)), app("+", buffered, "1"), buffered)))
+	fx.assumed["Go channel semantics: a channel closed once stays closed; an unbuffered send completes together with its receive"] = true
+}
+
+// checkChanInvariant / assumeChanInvariant: see conc.go
 func (fx *Fx) chanRecv(st *State, x *ast.UnaryExpr, spec bool) Val {
-	panic(unsupported("channel receive"))
+	return fx.chanRecv2(st, x)[0]
 }
-func (fx *Fx) chanRecv2(st *State, x *ast.UnaryExpr) []Val { panic(unsupported("channel receive")) }
-func (fx *Fx) havocChans(st *State)                         {}
-func (fx *Fx) execGo(st *State, x *ast.GoStmt) []Outcome { panic(unsupported("go statement")) }
+
+func (fx *Fx) chanRecv2(st *State, x *ast.UnaryExpr) []Val {
+	c := fx.eval(st, x.X, false)
+	ct, _ := c.T.Underlying().(*types.Chan)
+	var et types.Type = types.NewStruct(nil, nil)
+	if ct != nil {
+		et = ct.Elem()
+	}
+	v := fx.freshVal(st, "recv", et)
+	if v.S == SRef {
+		fx.older(st, v.X)
+	}
+	ok := fx.d.freshConst("recvok", SBool)
+	cell := fx.chanCell(st, c.X)
+	// a value is received (ok) or the channel is closed and drained (!ok => closed)
+	st.assume(implies(not(ok), app("ch_closed", cell)))
+	fx.noteCtxDone(st, c)
+	fx.assumeChanInvariant(st, c, v, ok, exprText(x.X))
+	return []Val{v, {T: types.Typ[types.Bool], S: SBool, X: ok}}
+}
+
+func (fx *Fx) havocChans(st *State) {
+	if _, ok := st.heap["ghost_chan"]; ok {
+		fx.chanCell(st, "nil")
+		st.heap["ghost_chan"] = fx.d.freshConst("H_ghost_chan", "(Array Ref "+chanSort+")")
+	}
+}
+
+func (fx *Fx) execGo(st *State, x *ast.GoStmt) []Outcome {
+	for _, a := range x.Call.Args {
+		fx.eval(st, a, false)
+	}
+	fx.note("go statements are not executed: the spawned function is verified as its own entry point")
+	return normal(st)
+}
+
+// execSelect: a nondeterministic choice among the communication cases (every ready case may be taken).
 func (fx *Fx) execSelect(st *State, x *ast.SelectStmt) []Outcome {
-	panic(unsupported("select"))
+	var outs []Outcome
+	for _, cl := range x.Body.List {
+		cc := cl.(*ast.CommClause)
+		br := st.clone()
+		cur := []Outcome{{st: br, kind: kNormal}}
+		if cc.Comm != nil {
+			cur = fx.exec(br, cc.Comm)
+		}
+		for _, o := range cur {
+			if o.kind != kNormal {
+				outs = append(outs, o)
+				continue
+			}
+			for _, bo := range fx.execBlock(o.st, cc.Body) {
+				if bo.kind == kBreak && bo.label == "" {
+					bo.kind = kNormal
+				}
+				outs = append(outs, bo)
+			}
+		}
+	}
+	fx.assumed["select: any case may be taken (no fairness, no blocking analysis)"] = true
+	return outs
 }
-func (fx *Fx) execSend(st *State, x *ast.SendStmt) []Outcome { panic(unsupported("send")) }
